@@ -447,15 +447,17 @@ def run_restart(ck, rng, quick):
         lines.append("tick 2")
         for e in range(a + 1, b + 1):
             lines.append("enq " + c07.ev_asdu(e).hex())
-        lines += ["tick %d" % (b - a + 1), "stop", "start"]
+        # how the server side ends the connection: the whole server is stopped and started again / the application closes the connection
+        how = ("restart", "appclose", "appclose")[i % 3]
+        lines += ["tick %d" % (b - a + 1)] + (["stop", "start"] if how == "restart" else ["appclose c0", "tick 2"])
         lines += ["connect c1 10.0.0.1:1001", "tick", "rx c1 " + apci.STARTDT_ACT.hex(), "tick %d" % (k + 1)]
         for _ in range((b - a) // k + 2):
             lines += ["rxs c1", "tick %d" % (k + 1)]
         sid = "rs%d" % i
-        scripts.append((sid, lines)); meta[sid] = (mode, k, a, b)
+        scripts.append((sid, lines)); meta[sid] = (mode, k, a, b, how)
     rc = runner.run_batch(h, scripts, timeout=3600)
     for sid, lines in scripts:
-        mode, k, a, b = meta[sid]
+        mode, k, a, b, how = meta[sid]
         ck.evaluations += 1
         o = rc.get(sid, dict(out=[], crash=None))
         if o["crash"]:
@@ -473,9 +475,9 @@ def run_restart(ck, rng, quick):
             continue
         want = list(range(a + 1, b + 1))
         if per["c1"] != want:
-            ck.fail("input", "oracle:resent-after-restart", "server event buffer: events %s were transmitted and not acknowledged when the server was stopped; after the restart the next activated connection received %s" % (
-                want, per["c1"]), {"script": lines, "observed": [l[:100] for l in o["out"] if l.startswith(("tx c1", "ev ", "q "))][-8:]})
-        ck.nontriv(("restart", mode, k, a, b))
+            ck.fail("input", "oracle:resent-after-" + how, "server event buffer: events %s were transmitted and not acknowledged when %s; the next activated connection received %s" % (
+                want, "the server was stopped and started again" if how == "restart" else "the application closed the connection (IMasterConnection_close)", per["c1"]), {"script": lines, "observed": [l[:100] for l in o["out"] if l.startswith(("tx c1", "ev ", "q "))][-8:]})
+        ck.nontriv((how, mode, k, a, b))
     ck.count("restart_scripts", len(scripts))
 
 
